@@ -929,7 +929,7 @@ def main(tier):
             E.MODELS[TPV_KEY] = _decode_contract
         try:
             fr = verify.verify_function(Scoped(chk), fname, entry, post, known=known, on_violation=onv, witness_terms=witness_terms,
-                                        timeout_ms=timeout, deadline_s=120, only=only, refute=refuter(kind_of(fname)))
+                                        timeout_ms=timeout, deadline_s=3600, path_timeout_ms=30000, only=only, refute=refuter(kind_of(fname)))
         finally:
             E.MODELS.pop(TPV_KEY, None)
         inlined |= fr.inlined
